@@ -49,7 +49,9 @@ fn gen_history(seed: u64) -> (History, super::super::chain::ChainParams, super::
     // leave data of unregistered scripts behind, and a prefix search must not reach it
     params.n_locks = 7;
     params.n_types = *rng.pick(&[0usize, 4]);
-    const LOCKS: [usize; 4] = [1, 2, 4, 6];
+    // prefix-free as well: a prefix search for args [00] legitimately returns the entries of args [00 ff], including stale
+    // ones of the time when that script was not registered (KF26 / KF42)
+    const LOCKS: [usize; 3] = [2, 4, 6];
     const TYPES: [usize; 2] = [1, 3];
     let len = rng.range(8, 36);
     let mut ccfg = gen_ccfg(&mut rng);
@@ -80,7 +82,8 @@ fn gen_history(seed: u64) -> (History, super::super::chain::ChainParams, super::
             }
             _ => Act::Grow(1),
         };
-        if matches!(next, Act::SetAll(_) | Act::Delete(_)) {
+        // half of the set_scripts calls hit a quiescent client, the other half arrive mid-sync (matched blocks pending)
+        if matches!(next, Act::SetAll(_) | Act::Delete(_)) && rng.chance(1, 2) {
             acts.push(Act::Converge);
         }
         acts.push(next);
@@ -224,6 +227,12 @@ fn run_history(h: &History, params: &super::super::chain::ChainParams, ccfg: &su
             if w.panics.first().is_some() {
                 let (ctx, p) = w.panics[0].clone();
                 res.panic = Some(format!("{}: {} at {}", ctx, p.message, p.location));
+                if std::env::var("VERIF_DEBUG").is_ok() {
+                    eprintln!("DBG PANIC crash_at={:?} {}", crash_at, p.message);
+                    for l in w.trace_vec().iter().rev().take(60).rev() {
+                        eprintln!("DBG   trace {}", l);
+                    }
+                }
                 break;
             }
             if crashed_once {
@@ -310,6 +319,12 @@ fn run_history(h: &History, params: &super::super::chain::ChainParams, ccfg: &su
     if w.dead {
         if let Some((ctx, p)) = w.panics.first() {
             res.panic = Some(format!("{}: {} at {}", ctx, p.message, p.location));
+            if std::env::var("VERIF_DEBUG").is_ok() {
+                eprintln!("DBG PANIC crash_at={:?} {}", crash_at, p.message);
+                for l in w.trace_vec().iter().rev().take(40).rev() {
+                    eprintln!("DBG   trace {}", l);
+                }
+            }
         }
     } else if res.converged {
         let chain = &w.chains[main];
@@ -474,7 +489,11 @@ pub fn run(cfg: &RunCfg, out: &Out) {
                 let prev = r.sites.iter().rev().nth(1).map(|(s, _)| *s).unwrap_or("-");
                 out.violation("C08.R1", &format!("C08|restart-panic|during={}|after={}|before={}", during, prev, site), detail, k);
             } else if r.panic.is_some() {
-                out.violation("C08.R1", &format!("C08|panic-after-recovery|during={}|before={}", during, site), detail, k);
+                // where it panicked: "<file>:<normalised message>" taken from the recorded "ctx: message at file:line:col"
+                let ptxt = r.panic.clone().unwrap_or_default();
+                let file = ptxt.rsplit(" at ").next().unwrap_or("").split(':').next().unwrap_or("").rsplit('/').next().unwrap_or("").to_string();
+                let msg = super::super::util::normalize_msg(ptxt.splitn(2, ": ").nth(1).unwrap_or("").split(" at /").next().unwrap_or(""));
+                out.violation("C08.R1", &format!("C08|panic-after-recovery|during={}|before={}|{}|{}:{}", during, site, forky, file, msg.split_whitespace().collect::<Vec<_>>().join(" ").chars().take(60).collect::<String>()), detail, k);
             } else if r.mismatch.is_some() {
                 let kind = if r.mismatch.as_ref().unwrap().starts_with("not converged") { "no-convergence" } else { "answers-differ" };
                 out.violation("C08.R2", &format!("C08|{}|during={}|before={}|{}", kind, during, site, forky), detail, k);
